@@ -20,7 +20,7 @@ from common import hx, unhx
 GROUP = "velocity"
 FILES = ["gen/Gen_velocity.v", "gen/Gen_velocity_utils.v", "gen/Gen_pathlines.v", "Model_pathlines.v", "Proofs_velocity.v", "Inst_velocity.v",
          "Proofs_pathlines.v", "Inst_pathlines.v", "Proofs_pathline_gen.v", "Proofs_pathline_exact.v", "Model_pathline_session.v",
-         "Proofs_pathline_session.v", "Entry_velocity.v", "Extract_velocity.v"]
+         "Proofs_pathline_session.v", "Model_pathline_options.v", "Proofs_pathline_options.v", "Entry_velocity.v", "Extract_velocity.v"]
 GEN_MODULES = ("velocity", "pathlines")
 METHODS = ("RK45", "RK23", "DOP853", "Radau", "BDF", "LSODA")      # ordinals used by the generated request vector
 PROP = "Properties/C18.v"
@@ -539,7 +539,23 @@ def fresh_pathlines_module():
     return mod
 
 
-def run_pathline(spec, callables=None, raw_args=None, module=None):
+ILLEGAL_KWARGS = ("events", "jac", "dense_output", "args")
+
+
+def decode_kwargs(kw):
+    """solver keyword arguments of a `path` step as Python objects (JSON has no tuples)"""
+    out = dict(kw or {})
+    if "args" in out:
+        out["args"] = tuple(out["args"])
+    return out
+
+
+def alters_solver(kw):
+    """True iff some keyword argument reaches solve_ivp (the four illegal ones are dropped with a warning)"""
+    return any(k not in ILLEGAL_KWARGS for k in (kw or {}))
+
+
+def run_pathline(spec, callables=None, raw_args=None, module=None, solver_kwargs=None):
     """Run pydrex.pathlines.get_pathline, recording every call of the terminal event and
     solve_ivp's own result.  Returns a dict.
     callables: the (velocity, gradient) pair to use (default: a new flow built from `spec`);
@@ -591,7 +607,7 @@ def run_pathline(spec, callables=None, raw_args=None, module=None):
     try:
         with warnings.catch_warnings():
             warnings.simplefilter("ignore")
-            ts, f = P.get_pathline(a_p, u, L, a_mn, a_mx, max_strain=a_ms, regular_steps=steps)
+            ts, f = P.get_pathline(a_p, u, L, a_mn, a_mx, max_strain=a_ms, regular_steps=steps, **decode_kwargs(solver_kwargs))
         rec["ts"], rec["f"], rec["ts_obj"] = np.array(ts), f, ts
     except Exception as e:  # noqa: BLE001
         rec["exc"] = (type(e).__name__, str(e)[:200])
@@ -611,7 +627,7 @@ def rate_at(L, x):
     return float(np.abs(np.linalg.eigvalsh((G + G.T) / 2)).max())
 
 
-def check_pathline(chk, spec, rec, stats):
+def check_pathline(chk, spec, rec, stats, solver_kwargs=None):
     """Model replay of the event + time stamps (correspondence) and the runtime-checked clauses.
     Returns a list of failure strings."""
     flow, hl, vl, ps, mn, mx, p, ms, steps = spec
@@ -652,8 +668,25 @@ def check_pathline(chk, spec, rec, stats):
         g = common.run_model([common.model_line("gen_request", [], list(p) + list(mn) + list(mx) + [ms])], group=GROUP)[0]
         stats["requests_compared"] = stats.get("requests_compared", 0) + 1
         rq = rec["request"]
-        if isinstance(rq, str) or g[0] != "OK" or not common.vec_close(rq, g[1][:len(rq)], rtol=0.0, atol=0.0)[0]:
-            fails.append(f"solve_ivp was called with {rq}, the request generated from the source is {g[1] if g[0] == 'OK' else g}")
+        want = list(g[1]) if g[0] == "OK" else None
+        if want is not None and solver_kwargs:
+            # the options THIS call passes (C18_generated_request_kwargs / Model_pathline_options.request_of): every other
+            # entry is that of the plain request -- whatever earlier calls of the process passed
+            kw = solver_kwargs
+            for name, idx in (("atol", 6), ("rtol", 7), ("first_step", 16), ("max_step", 17)):
+                if name in kw:
+                    want[idx] = float(kw[name])
+            if "method" in kw:
+                want[8] = float(METHODS.index(kw["method"]))
+            want[18] = float(sum(1 for k in kw if k not in ILLEGAL_KWARGS + ("atol", "rtol", "first_step", "max_step", "method")))
+        if isinstance(rq, str) or want is None or not common.vec_close(rq, want[:len(rq)], rtol=0.0, atol=0.0)[0]:
+            fails.append(f"solve_ivp was called with {rq}; the request of THIS call according to the source-generated model is "
+                         f"{want[:19] if want is not None else g} (entries: t_span 0-2, y0 3-5, atol 6, rtol 7, method 8, ..., first_step 16, "
+                         f"max_step 17, other keyword arguments 18)")
+    if alters_solver(solver_kwargs):
+        # the caller asked for another solver set-up (coarser tolerances, t_eval ...): the trajectory clauses are measured
+        # for the documented defaults only; what is checked for such a call is the request and the event semantics above
+        return fails
         # how often is the event evaluated at non-monotone times (the root finder jumps)?
         tt = [c[0] for c in calls]
         stats["event_forward_jumps"] += sum(1 for a, b in zip(tt, tt[1:]) if b > a)
@@ -900,10 +933,10 @@ def _drop_step(slot):
     return {"op": "drop", "slot": slot}
 
 
-def _path_step(slot, p, mn, mx, ms, steps=None, as_="array", reuse=False, scribble=False):
+def _path_step(slot, p, mn, mx, ms, steps=None, as_="array", reuse=False, scribble=False, kwargs=None):
     return {"op": "path", "slot": slot, "p": [hx(a) for a in p], "mn": [hx(a) for a in mn], "mx": [hx(a) for a in mx],
             "p_float": [float(a) for a in p], "ms": hx(ms), "steps": None if steps is None else int(steps),
-            "as": as_, "reuse": bool(reuse), "scribble": bool(scribble)}
+            "as": as_, "reuse": bool(reuse), "scribble": bool(scribble), "kwargs": dict(kwargs or {})}
 
 
 def step_spec(flowdef, st):
@@ -916,7 +949,7 @@ def step_spec(flowdef, st):
 def solver_key(flowdef, st):
     """everything that reaches solve_ivp (`sargs` of the Coq model); regular_steps is not part of it"""
     return (flowdef["flow"], flowdef["h"].upper(), flowdef["v"].upper(), tuple(flowdef["ps"]),
-            tuple(st["p"]), tuple(st["mn"]), tuple(st["mx"]), st["ms"])
+            tuple(st["p"]), tuple(st["mn"]), tuple(st["mx"]), st["ms"], json.dumps(st.get("kwargs") or {}, sort_keys=True))
 
 
 def seq_domain(rng, flow, h, v, physical=False):
@@ -1043,6 +1076,21 @@ def gen_scenarios(rng, tier):
         for pp, m_, steps in ((p, ms, None), (p, ms / 2, None), (p2, ms, None), (p, ms, 6)):
             st.append(_path_step(0, pp, mn, mx, m_, steps))
         out.append({"family": "shared_buffers", "flow": FLOWS[flow], "steps": st})
+    # --- solver options are per call (added after seeded change C18e): [call WITH a solver keyword argument; PLAIN call;
+    #     plain call with another end point] for each keyword argument get_pathline passes on or drops, one history each.
+    #     The plain calls must make the request of the generated model, satisfy the clauses and equal the fresh-process
+    #     reference bit for bit (Model_pathline_options: the request of a call does not depend on the history).
+    option_sets = [{"method": "RK23"}, {"rtol": 0.2}, {"atol": 0.05}, {"first_step": 1e-3}, {"max_step": 0.05},
+                   {"t_eval": [-0.02, -0.05]}, {"method": "RK23", "rtol": 0.2, "atol": 0.05}, {"vectorized": False},
+                   {"events": []}, {"jac": None}, {"dense_output": False}, {"args": []}]
+    for k, kw in enumerate(option_sets):
+        flow = (0, 1, 2)[k % 3] if tier != "quick" else (1 if k in (1, 6) else (2 if k == 2 else 0))
+        mn, mx, p, ps = seq_domain(rng, flow, 0, 2)
+        ms = 0.5
+        p2 = mn + (mx - mn) * (0.5 + 0.6 * ((p - mn) / (mx - mn) - 0.5))
+        st = [_flow_step(0, flow, "X", "Z", ps),
+              _path_step(0, p, mn, mx, ms, None, kwargs=kw), _path_step(0, p, mn, mx, ms, None), _path_step(0, p2, mn, mx, ms, 4)]
+        out.append({"family": "solver_options_then_plain", "flow": FLOWS[flow], "steps": st})
     # --- boundary values (fixed): end points on a face / an edge / a corner of the box, on the line u = 0,
     #     a strain limit so small / so large that the other stopping criterion decides, one resampling step
     one = np.ones(3)
@@ -1087,6 +1135,16 @@ def _digest(rec):
 SESSION_TIMEOUTS = [0]      # calls of this process that hit PATHLINE_TIMEOUT_S
 
 
+def function_defaults_digest():
+    """digests of every mutable default-argument value, module-level container and functools cache of the modules C18 is
+    anchored in (harness/purity.py), taken before and after every get_pathline call of a session"""
+    import purity
+    try:
+        return purity.ModuleStateGuard("C18")._snapshot()
+    except Exception:  # noqa: BLE001
+        return {}
+
+
 def run_scenario(sc):
     """Execute one scenario in THIS process; every returned pathline is checked against ITS OWN flow with
     the clauses of check_pathline.  Returns one dict per `path` step."""
@@ -1114,13 +1172,19 @@ def run_scenario(sc):
                             "ts": None, "X": None, "stats": {k: 0 for k in ("event_calls", "event_forward_jumps", "end_error_max",
                                                                             "outside_max", "strain_ratio_max", "ode_residual_max")}})
                 continue
-            rec = run_pathline(spec, callables=slots[st["slot"]], raw_args=_make_args(st, spec, shared))
+            before = function_defaults_digest()
+            rec = run_pathline(spec, callables=slots[st["slot"]], raw_args=_make_args(st, spec, shared), solver_kwargs=st.get("kwargs"))
+            after = function_defaults_digest()
             SESSION_TIMEOUTS[0] += int(rec["exc"] is not None and rec["exc"][0] == "TimeoutError")
             stats = new_stats()
             try:
-                fails = check_pathline(chk_dummy, spec, rec, stats)
+                fails = check_pathline(chk_dummy, spec, rec, stats, solver_kwargs=st.get("kwargs"))
             except Exception as e:  # noqa: BLE001
                 fails = [f"the returned pathline cannot be evaluated: {type(e).__name__}: {str(e)[:160]}"]
+            for k in sorted(set(before) | set(after)):
+                if before.get(k) != after.get(k):
+                    fails.append(f"get_pathline changed process-wide state: {k} was {before.get(k)}, is {after.get(k)} after the call "
+                                 "(a default argument value / module-level container written in place: later calls inherit it)")
             if st["slot"] in intact and not intact[st["slot"]]():
                 fails.append("get_pathline wrote into an array returned by a user callable (the callables hand back one persistent "
                              "ndarray each; its content changed between two calls of the callable)")
@@ -1225,7 +1289,8 @@ def scenario_calls(sc):
 def describe_call(sc, k, fd, st):
     return (f"call {k} of sequence '{sc['family']}' ({fd['flow']}({fd['h']!r}, {fd['v']!r}, "
             f"*{[unhx(a) for a in fd['ps']]}), final_location {st['p_float']}, max_strain {unhx(st['ms'])!r}, "
-            f"regular_steps {st['steps']}, arguments as {st['as'] if not st['reuse'] else 'reused arrays'})")
+            f"regular_steps {st['steps']}, arguments as {st['as'] if not st['reuse'] else 'reused arrays'}"
+            + (f", solver keyword arguments {st['kwargs']}" if st.get("kwargs") else "") + ")")
 
 
 def compare_sessions(chk, scenarios, results, stats, known_path_points):
@@ -1279,7 +1344,7 @@ def compare_sessions(chk, scenarios, results, stats, known_path_points):
             if key not in refs:
                 if sum(1 for v in refs.values() if v["exc"] is not None and v["exc"][0] == "TimeoutError") >= 3:
                     continue        # a tree whose pathlines do not terminate: already reported three times over
-                refs[key] = run_pathline(spec[:8] + (None,), module=fresh_pathlines_module())
+                refs[key] = run_pathline(spec[:8] + (None,), module=fresh_pathlines_module(), solver_kwargs=st.get("kwargs"))
             ref = refs[key]
             if ref["exc"] is not None or r["exc"] is not None:
                 if (ref["exc"] is None) != (r["exc"] is None) or list(ref["exc"]) != list(r["exc"]):
@@ -1326,9 +1391,31 @@ def sequence_failures(scs, pads=(0,)):
     pads: heap layouts to try in turn until one shows a failure (see HEAP_PADS)."""
     fails = []
     for pad in pads:
-        for sc, rs in zip(scs, run_sessions_subprocess(scs, pad=pad)):
+        results = run_sessions_subprocess(scs, pad=pad)
+        for sc, rs in zip(scs, results):
             for k, ((fd, st), r) in enumerate(zip(scenario_calls(sc), rs)):
                 fails += [f"{describe_call(sc, k, fd, st)}: {f}" for f in r["fails"]]
+        # histories with solver options: every PLAIN call of the history once more, each as the only call of its own
+        # scenario in another fresh interpreter (plain calls leave no state behind on any tree seen so far, so one
+        # interpreter serves them all); the two results must be identical bit for bit
+        singles, where = [], []
+        for sc, rs in zip(scs, results):
+            if sc["family"] != "solver_options_then_plain":
+                continue
+            flow_steps = [st for st in sc["steps"] if st["op"] == "flow"]
+            for k, ((fd, st), r) in enumerate(zip(scenario_calls(sc), rs)):
+                if not st.get("kwargs"):
+                    singles.append({"family": "single_plain_call", "flow": sc["flow"], "steps": flow_steps + [st]})
+                    where.append((describe_call(sc, k, fd, st), r))
+        if singles:
+            for (desc, r), rs1 in zip(where, run_sessions_subprocess(singles, pad=pad)):
+                r1 = rs1[0]
+                if (r["exc"] is None) != (r1["exc"] is None) or (r["exc"] is None and (r["ts"] != r1["ts"] or r["X"] != r1["X"])):
+                    t0 = unhx(r["ts"][0]) if r["ts"] else None
+                    t1 = unhx(r1["ts"][0]) if r1["ts"] else None
+                    fails.append(f"{desc}: the result depends on the calls made before it: in this history "
+                                 f"{'it raised ' + str(r['exc']) if r['exc'] else f'{len(r['ts'])} time stamps from {t0!r}'}, as the only call of a "
+                                 f"fresh process {'it raises ' + str(r1['exc']) if r1['exc'] else f'{len(r1['ts'])} time stamps from {t1!r}'}")
         if fails:
             break
     return fails
@@ -1477,7 +1564,19 @@ def search(chk, rng_seed, extra_specs=(), extra_scenarios=(), extra_rep=()):
             for scs in ([cands] if len(cands) > 1 else []) + [gen_scenarios(np.random.default_rng([rng_seed, 18]), "quick")]:
                 fails = sequence_failures(scs)
                 if fails:
-                    found.append((encode_sequence(scs), fails[:6]))
+                    # narrow the replay down to single histories: each scenario named by a failure is run once more on its own
+                    named = [sc for k, sc in enumerate(scs)
+                             if any(f"of sequence '{sc['family']}' ({scenario_calls(sc)[0][0]['flow']}({scenario_calls(sc)[0][0]['h']!r}, "
+                                    f"{scenario_calls(sc)[0][0]['v']!r}, *{[unhx(a) for a in scenario_calls(sc)[0][0]['ps']]})" in f for f in fails)]
+                    for sc in named[:6]:
+                        own = sequence_failures([sc])
+                        if own:
+                            found.append((encode_sequence([sc]), own[:6]))
+                            nseq += 1
+                            if len(found) >= 3:
+                                break
+                    if not nseq:
+                        found.append((encode_sequence(scs), fails[:6]))
                     break
     return found
 
@@ -1618,6 +1717,11 @@ def run(chk):
         "call; memoizing variants); tie H = the call-sequence run: every result of every sequence is compared with the extracted "
         "`timestamps` applied to solve_ivp's result for the same request computed on its own (new flow objects, private copy of the "
         "module, other process, other history)",
+        "hand-written Model_pathline_options.v (the optional solver keyword arguments over call histories: requests are the map of the single "
+        "call, defaults never written; `Sticky` variant refuted); tie = the plain / keyword request of the model IS the generated request "
+        "(proved), and in the `solver_options_then_plain` histories the request every call actually makes is compared with its own request "
+        "according to the generated model, every plain call with the same call on its own; harness/purity.py digests of mutable default "
+        "argument values before / after every get_pathline call of a session",
     ]
     chk.cov["rule"] = (
         "kernels: three flows x six axis-letter pairs (upper and lower case) x velocity/gradient callables at random points (interior of the "
